@@ -174,6 +174,34 @@ class C13(C12):
         r["disagreements"] = (r["disagreements"] + [{"case": l, "implementation": o, "model": g} for l, o, g in zip(lines, outs, got) if o != g])[:20]
         r["evaluations"] += len(lines)
         r["dist"]["temporary_label_cases"] = len(lines)
+        # Asm/PatchIds.v against RewritingContext: the last patch id in use among the names of a module's symbols
+        import gtirb
+        import gtirb_rewriting
+        from gtirb_test_helpers import create_test_module
+        rnd = C.rng("c13-patchids")
+        plines, pouts = [], []
+        for _ in range(400 if tier == "quick" else 3000):
+            names = []
+            for _k in range(rnd.randint(0, 6)):
+                base = rnd.choice(["f", ".Lx", "blk", "a_b", "_", "x_", ".L_blah", "part_3", "$Lt", "n0", "__"])
+                tail = rnd.choice(["", "_" + str(rnd.randint(0, 400)), "_0" + str(rnd.randint(0, 99)), "_" + str(rnd.randint(0, 50)) + "x", "_x1", str(rnd.randint(0, 9)),
+                                   "_" + str(rnd.randint(0, 30)) + "_" + str(rnd.randint(0, 30)), "_-3", "_+4", "_1_", "_ 7".replace(" ", "")])
+                names.append(base + tail)
+            ir, m = create_test_module(gtirb.Module.FileFormat.ELF, gtirb.Module.ISA.X64)
+            for n_ in names:
+                m.symbols.add(gtirb.Symbol(n_))
+            try:
+                ctx = gtirb_rewriting.RewritingContext(m, [])
+                last = ctx._last_used_patch_id()
+                out = f"last {last} suffix _{ctx._patch_id + 1}"
+            except Exception as e:   # noqa
+                out = "err " + type(e).__name__
+            plines.append(f"patchids {len(names)} " + " ".join(names))
+            pouts.append(out)
+        pgot = C.run_driver("asm", plines)
+        r["disagreements"] = (r["disagreements"] + [{"case": l, "implementation": o, "model": g} for l, o, g in zip(plines, pouts, pgot) if o != g])[:20]
+        r["evaluations"] += len(plines)
+        r["dist"]["patch_id_cases"] = len(plines)
         return r
 
     def oracle(self, tier, ctx, boosted):
